@@ -329,7 +329,7 @@ def part_writer(sh, res):
             exp = refql.evaluate(q, A)
             if exp.error is not None:
                 continue
-            for policy, dlm in (('simple', ','), ('quoted', ','), ('simple', '\t'), ('whitespace', ' '), ('quoted_rfc', ',')):
+            for policy, dlm, color in (('simple', ',', False), ('quoted', ',', False), ('simple', '\t', False), ('whitespace', ' ', False), ('quoted_rfc', ',', False), ('simple', '\t', True), ('simple', ',', True), ('quoted', ',', True)):
                 out = io.StringIO()
                 warns = []
                 res.evaluations += 1
@@ -337,7 +337,7 @@ def part_writer(sh, res):
                 res.states += 1
                 res.transitions += len(A)
                 try:
-                    eng.query(text, eng.TableIterator([list(r) for r in A]), rc.CSVWriter(out, False, None, dlm, policy), warns)
+                    eng.query(text, eng.TableIterator([list(r) for r in A]), rc.CSVWriter(out, False, None, dlm, policy, colorize_output=color), warns)      # color: the documented --color option; the warnings are about the data, not about the paint
                 except Exception as e:
                     res.violation('writer-exception', {'kind': 'writer', 'query': text, 'A': A, 'policy': policy}, None, repr(e))
                     continue
@@ -352,7 +352,9 @@ def part_writer(sh, res):
                 has_dlm = policy in ('simple', 'whitespace') and any(dlm in s(v) for r in exp.records for v in r)
                 w_none = any('None' in w for w in warns)
                 w_sep = any('separator' in w for w in warns)
-                case = {'kind': 'writer', 'query': text, 'A': A, 'policy': policy, 'dlm': dlm}
+                case = {'kind': 'writer', 'query': text, 'A': A, 'policy': policy, 'dlm': dlm, 'colorize_output': color}
+                if color:
+                    res.feat('colorized_outputs')
                 if has_none:
                     res.feat('outputs_with_none')
                 if has_dlm:
@@ -500,7 +502,7 @@ def main(tier, seed):
              'warnings: all width patterns up to the row bound over widths 0..3 (table and CSV input), CSV writer None / delimiter warnings over all small output tables x 5 dialects, reader BOM / quoting warnings' % len(PARSE_MISTAKES),
         assumptions=['record numbers in the field-count warning are asserted for header-less, whole-scan queries only (the quantifier)', 'RefQL computes the first offending record'],
         extra={'row_bound': maxn},
-        min_features={'name_list_length_errors': 1000, 'js_name_list_length_errors': 500, 'name_list_length_ok': 100, 'runtime_errors_located': 300, 'first_offender_not_record_1': 100, 'parsing_errors': 50, 'io_errors': 20, 'ragged_tables': 200, 'rectangular_tables': 10,
+        min_features={'colorized_outputs': 300, 'name_list_length_errors': 1000, 'js_name_list_length_errors': 500, 'name_list_length_ok': 100, 'runtime_errors_located': 300, 'first_offender_not_record_1': 100, 'parsing_errors': 50, 'io_errors': 20, 'ragged_tables': 200, 'rectangular_tables': 10,
                       'js_reader_cases': 100, 'js_io_errors': 4, 'outputs_with_none': 50, 'outputs_with_delimiter_in_field': 50, 'reader_warning_cases': 5})
 
 
